@@ -272,7 +272,26 @@ def r15_hash_eq(ctx):
         ctx.require(ok, 'R15.5', f'__hash__(frozen {kind})', ctx.where(hs),
                     f'two equal frozen messages whose attributes were stored in different order hash {outs} (equal messages must hash equal, '
                     'from vars(self) only)', construct=f'{hs.qname}::vars')
-    ctx.floor('R15.5-eq-hash', n, 20)
+    # a time that is not equal to itself (nan is a real number, check_time lets it in): a copy, a frozen copy and a thawed one
+    # carry the very same time object and are equal to the original - equality of the attribute dicts, not of picked fields
+    thaw = ctx.p.func(FZ, 'thaw_message')
+    nan = float('nan')
+    for kind in ('note_on', 'set_tempo'):
+        def variants():
+            m = build(kind, frozen=False)
+            m.attrs['time'] = nan
+            o_, cp = ctx.p.lookup_method(m.cls, 'copy')
+            c = ai.call_function(cp, [m], {})
+            f = ai.call_function(freeze, [m], {})
+            t = ai.call_function(thaw, [f], {})
+            return [(lab_, ai.call_function(eq, [m, x], {})) for lab_, x in (('copy', c), ('frozen copy', f), ('thawed copy', t), ('itself', m))]
+        outs = ai.explore(variants)
+        n += 1
+        ok = len(outs) == 1 and outs[0].kind == 'return' and all(v is True for _, v in outs[0].value)
+        ctx.require(ok, 'R15.5', f'__eq__({kind} with time=nan, its copies)', ctx.where(eq),
+                    f'a message whose time is nan compared with its copy / frozen copy / thawed copy / itself: {outs[0].value if ok is False and outs and outs[0].kind == "return" else outs}',
+                    construct=f'{eq.qname}::vars')
+    ctx.floor('R15.5-eq-hash', n, 22)
     for q in ai.inlined:
         ctx.functions.add(q)
     # no subclass overrides __eq__ / __hash__ inconsistently
